@@ -163,6 +163,9 @@ REGRESSION_PROGRAMS = [
     # identifiers whose NFKC form is a keyword (fullwidth / mathematical letters): names for tokenizer, parser and tree alike
     "\uff49\uff46 x: pass\n", "x = \uff4e\uff4f\uff54 y\n", "\U0001d41d\U0001d41e\U0001d41f f(): pass\n",
     "[b \uff46\uff4f\uff52 c \uff49\uff4e d]\n", "\uff50\uff41\uff53\uff53\n", "\uff32\uff45\uff54\uff55\uff52\uff4e = \uff4e\uff4f\uff4e\uff45\n",
+    # a replacement field with its own format spec inside a format spec, followed by another field or text (the nested spec
+    # is finished by its closing brace)
+    'f"{x:{y:1}{z}}"\n', 'f"{x:{y:{z}}{w}}"\n', "f'{x:{y:>{w}}{z!r:{q}}}'\n", 'f"{a:{b:{c}}d{e}f}"\n', "x = f'''{x:{y:1}\n{z}}'''\n",
     "if a:\n    b\n  $\nc\n", "  $", "if a:\n  ?\nb\n", "if a:\n    $\n    b\n$\n", "class C:\n  def f():\n    x\n  `\n",
 ]
 
